@@ -121,7 +121,7 @@ impl Scenario for C03 {
         // one that mismanages its timer the two differ, and merging on `tsc` alone would fold a
         // history whose shield has just restarted into one whose shield is about to end.
         let now = w.now_ms();
-        let shield = t_open(&x.tl).filter(|t| now < t + self.cfg.wait_ms).map(|t| (now - t) as i64).unwrap_or(-1);
+        let shield = t_open(&x.tl).filter(|t| now < t.saturating_add(self.cfg.wait_ms)).map(|t| (now - t) as i64).unwrap_or(-1);
         format!("{:?}/{}/{}/{}/{}/{}/{}/{}", m.state, m.total_calls, m.failure_count, m.success_count, m.slow_call_count, tsc, shield, *x.gate.open.lock().unwrap())
     }
     fn before(&self, w: &World, x: &mut X, a: &Action) {
@@ -131,7 +131,7 @@ impl Scenario for C03 {
         // the shield is judged from the transition log, not from the state shown right now:
         // a breaker that slips back to closed before the wait has elapsed must still not let
         // a new call through.
-        x.pre_open = t_open(&x.tl).map_or(false, |t| now < t + self.cfg.wait_ms);
+        x.pre_open = t_open(&x.tl).map_or(false, |t| now < t.saturating_add(self.cfg.wait_ms));
         x.pre_calls = w.inner.lock().unwrap().calls.len();
         x.pre_had_inner = match a {
             Action::Poll(c) => has_inner(w, *c as usize),
